@@ -35,6 +35,10 @@ func (c15) Run(t *tape.Tape, tier Tier) *Result {
 	if tier == Thorough {
 		cfg.MaxDepth, cfg.MaxNodes = 7, 20
 	}
+	if t.Draw(3) == 2 {
+		// the property does not restrict string contents
+		cfg.Alpha = gen.Hostile
+	}
 	g := gen.New(t, cfg)
 	spec := g.Tree()
 	sim := world.NewSim(t)
@@ -51,6 +55,10 @@ func (c15) Run(t *tape.Tape, tier Tier) *Result {
 		res.add(Violation{Prop: "C15", Oracle: "nil-gives-nothing", Culprit: "BuildSentryReport", Expected: "nil, nil", Observed: "non-nil"})
 	}
 	nStacks := 0
+	// frames per stack-carrying layer as seen in the report at the origin:
+	// the report of a transferred copy (whose stacks are re-parsed from their
+	// printed form) must show the same frames
+	var originFrames []string
 	check := func(e error, where string) {
 		p := obs.S(func() string {
 			ev, extras := errors.BuildSentryReport(e)
@@ -102,6 +110,27 @@ func (c15) Run(t *tape.Tape, tier Tier) *Result {
 						break
 					}
 				}
+			}
+			var frames []string
+			for _, exc := range ev.Exception {
+				js, _ := json.Marshal(exc.Stacktrace)
+				frames = append(frames, string(js))
+			}
+			if where == "origin (local)" {
+				originFrames = frames
+			} else if fmt.Sprint(frames) != fmt.Sprint(originFrames) {
+				idx := 0
+				for idx < len(frames) && idx < len(originFrames) && frames[idx] == originFrames[idx] {
+					idx++
+				}
+				e1, o1 := "", ""
+				if idx < len(originFrames) {
+					e1 = originFrames[idx]
+				}
+				if idx < len(frames) {
+					o1 = frames[idx]
+				}
+				res.add(Violation{Prop: "C15", Oracle: "exception-frames-local-vs-transferred", Culprit: fmt.Sprintf("exception[%d]of%d", idx, len(originFrames)), Expected: short(e1), Observed: short(o1), Where: where})
 			}
 			for j, exc := range ev.Exception {
 				if exc.Module != module {
